@@ -5,7 +5,7 @@
 // (ScriptSock::send_hook), every FastFlow atomic of the outbound queue (ff_shim.hpp), sched_yield in the blocking pop.
 // All schedules up to a preemption bound; oracle on every complete execution.  The `tsan` variant runs the same schedules
 // with ThreadSanitizer watching (the scheduler's hand-offs are invisible to it, see sched.cpp).
-// args: pm=t|p  ops=<script per thread, comma separated; s = send, n = send with destroy=false, b = send_batch of 2, B = send_batch of 3, r = process one inbound
+// args: pm=t|p  ops=<script per thread, comma separated; s = send, n = send with destroy=false, b = send_batch of 2, B = send_batch of 3, a = process one inbound in-sequence NewOrderSingle (must reach the application), r = process one inbound
 //       in-sequence Heartbeat as the reader thread would (at most one thread with r steps)>  pm=t2|p2: two sessions in the process, thread t drives session t % 2   pk=m|f  bound=<n>  start=<first number>
 // With pk=f the store's lseek/read/write calls are scheduling points too and the files are reopened by a fresh FilePersister at the end.
 #include <fix8/f8includes.hpp>
@@ -18,8 +18,12 @@
 #include "sched/explore.hpp"
 using namespace FIX8;
 
+struct Rt25 : UTEST::utest_Router {
+	mutable std::vector<std::string> got;	// ClOrdIDs delivered to the application, in order
+	bool operator()(const UTEST::NewOrderSingle *m) const override { UTEST::ClOrdID id; m->get(id); got.push_back(id()); return true; }
+};
 struct Ses25 : Session {
-	UTEST::utest_Router rt;
+	Rt25 rt;
 	Ses25(const F8MetaCntx& c, const SessionID& sid, Persister *p) : Session(c, sid, p) {}
 	bool handle_application(const unsigned seqnum, const Message *&msg) override { return enforce(seqnum, msg) || msg->process(rt); }
 };
@@ -28,7 +32,7 @@ static char PM = 't', PK = 'm';
 static std::vector<std::string> SCRIPTS;
 static unsigned START = 1;
 static int NS = 1;	// sessions in the process (pm=t2: two sessions, thread t drives session t % 2) — they share what is static in the library
-struct Ctx { sim::ScriptSock *sock; Poco::Net::StreamSocket *ps; Persister *per; Ses25 *ses; ClientConnection *conn; std::string dbn; int inbound_done; };
+struct Ctx { sim::ScriptSock *sock; Poco::Net::StreamSocket *ps; Persister *per; Ses25 *ses; ClientConnection *conn; std::string dbn; int inbound_done; std::vector<std::string> fed; };
 static Ctx cx[2];
 static std::atomic<int> wire_msgs;
 struct OpRes { std::vector<std::string> ids; bool ok = false; size_t n = 0; };
@@ -63,6 +67,13 @@ static void *sender(void *a)
 			sim::Hdr h; h.type = "0"; h.sender = "SRV"; h.target = "CLI"; h.seq = (long)++inbound_done;
 			r.ok = ses->process(sim::mk("FIX.4.2", h, "")); r.n = 0; continue;
 		}
+		if (sc[o] == 'a') {	// inbound application message carrying the expected number: must reach this session's application, intact
+			sim::Hdr h; h.type = "D"; h.sender = "SRV"; h.target = "CLI"; h.seq = (long)++inbound_done;
+			const std::string id = "IN" + std::to_string(t) + "." + std::to_string(o);
+			cx[t % NS].fed.push_back(id);
+			const std::string body = "11=" + id + "\001" "21=1\001" "55=IBM\001" "54=1\001" "60=20231114-22:13:20\001" "40=1\001";
+			r.ok = ses->process(sim::mk("FIX.4.2", h, body)); r.n = 0; continue;
+		}
 		const int n = sc[o] == 's' || sc[o] == 'n' ? 1 : sc[o] == 'b' ? 2 : 3;
 		for (int e = 0; e < n; ++e) r.ids.push_back("T" + std::to_string(t) + "O" + std::to_string(o) + "E" + std::to_string(e));
 		if (sc[o] == 's') { r.ok = ses->send(nos(r.ids[0]), true); r.n = r.ok ? 1 : 0; }
@@ -81,7 +92,7 @@ static std::string body()
 	wire_msgs = 0;
 	res.assign(SCRIPTS.size(), std::vector<OpRes>(8));
 	for (int k = 0; k < NS; ++k) {
-		Ctx& c = cx[k]; c.inbound_done = 0;
+		Ctx& c = cx[k]; c.inbound_done = 0; c.fed.clear();
 		c.sock = new sim::ScriptSock;
 		c.sock->send_hook = [](const void *b, int len) -> int {
 			vs_point(9001);
@@ -166,6 +177,10 @@ static std::string judge_session(int k)
 		unsigned cs = 0, cr = 0; const bool g = per->get(cs, cr);
 		if (verdict.empty() && (!g || cs != START + wire.size() || cr != 1u + inbound_done)) verdict = "control-record-follows|control record (" + std::to_string(cs) + "," + std::to_string(cr) + ") after " + std::to_string(wire.size()) + " messages from " + std::to_string(START);
 		if (verdict.empty() && ses->_next_send_seq != START + wire.size()) verdict = "unique-consecutive-seqnums|next outbound number " + std::to_string((unsigned)ses->_next_send_seq) + " after " + std::to_string(wire.size()) + " messages";
+	}
+	if (verdict.empty() && ses->rt.got != c.fed) {
+		std::string a, b; for (auto& x : ses->rt.got) a += x + " "; for (auto& x : c.fed) b += x + " ";
+		verdict = "inbound-delivered|application of session " + std::to_string(k) + " received: " + a + "; handed to Session::process in sequence: " + b;
 	}
 	if (PK == 'f' && verdict.empty()) {	// what a restarted process would find: a fresh FilePersister on the same files
 		FilePersister re(0); const bool opened = re.initialise(".", dbn, false);
